@@ -31,6 +31,8 @@ def main():
                 if r.returncode != 0:
                     return (m, "BROKEN-MUTANT: go test fails", r.stdout[-500:])
             r = subprocess.run([os.path.join(V, "bin", "govc"), "verify", "-t", "8000"] + m["funcs"], env=dict(ENV, GOVC_REPO=tmp), capture_output=True, text=True)
+            if "load:" in r.stderr or "load:" in r.stdout:
+                return (m, "BROKEN-MUTANT: does not load", (r.stderr + r.stdout)[-300:])
             fails = [l for l in r.stdout.splitlines() if l.startswith("FAIL") or " ERROR " in l]
             hit = [l for l in fails if m["expect"] in l]
             if hit:
